@@ -293,8 +293,7 @@ func symBinop(op token.Token, t types.Type, x, y value) value {
 		case token.NEQ:
 			return fromBoolTerm(p.Not(strEq(p, x, y)))
 		case token.ADD:
-			bx, by := strBytes(x), strBytes(y)
-			return mkStr(append(append([]value{}, bx...), by...))
+			return concatStr([]value{x, y})
 		}
 		panic("symBinop: string op " + op.String())
 	}
